@@ -567,6 +567,10 @@ class GeminiServerProtocol(asyncio.Protocol):
 
     def _process_titan_upload(self) -> None:
         """Process the Titan upload through the upload handler."""
+        # The upload is dispatched exactly once per connection: further reads
+        # (trailing bytes, data arriving while the handler runs) are ignored
+        self.awaiting_titan_content = False
+
         if not self.upload_handler or not self.titan_request:
             self._send_error_response(
                 StatusCode.TEMPORARY_FAILURE, "Upload handler error"
